@@ -90,7 +90,19 @@ def gen(rng, n):
         tdopt = ['--trash-dir', user] if user else []
         steps = [{'cmd': 'list', 'argv': list(tdopt), 'listdir': 'sorted'},
                  {'cmd': 'restore', 'argv': ['/'] + list(tdopt), 'stdin': '\n', 'listdir': 'sorted'}]
+        bind = None
+        if not user and rng.random() < 0.2:
+            # a volume that is in the mount table but is no mount point for os.path.ismount (a bind mount within one file system): the
+            # entries of its $topdir/.Trash-$uid are relative to the $topdir under which the directory was FOUND, for every command
+            bind = '/bindv'
+            for k in range(rng.randint(1, 2)):
+                t, variant = contents(rng, True, 10 + k)
+                nodes += scen.entry(bind + '/.Trash-%d' % lay.uid, 'b%d' % k, 'x', None, 'f', info_override=t)
+                ents.append({'td': bind + '/.Trash-%d' % lay.uid, 'kind': 'top2', 'name': 'b%d' % k, 'variant': variant, 'rel': True})
         scn = lay.scenario(steps, cwd='/', extra=nodes + scen.canary())
+        if bind:
+            scn['env']['TRASH_VOLUMES'] = scn['env'].get('TRASH_VOLUMES', '/') + ':' + bind
+            scn['steps'][1]['listed_mounts'] = ['/'] + sorted(scn.get('mounts') or []) + [bind]
         scns.append(scn)
         metas.append({'ents': ents, 'own': own, 'user': user, 'home_trash': lay.home_trash})
     return scns, metas
